@@ -130,6 +130,9 @@ class Ctx:
   def maxc(self, name, v):
     self.counters[name] = max(self.counters.get(name, v), v)
 
+  def minc(self, name, v):
+    self.counters[name] = min(self.counters.get(name, v), v)
+
   def distinct(self, *key):
     """Registers one non-trivial case by digest."""
     self.digests.add(
